@@ -125,17 +125,25 @@ class Evaluation(Sub):
         for kk, sigma in hard.items():
             i, j = [int(v) for v in kk.split(',')]
             if kk not in captured:
-                out.fail(sig + 'closure-not-evaluated', 'cost() did not evaluate the closure of pair %s' % kk)
-                continue
-            rr, gin, c = captured[kk]
+                # an implementation need not evaluate the pair's own closure instance (e.g. a batched evaluation): then only the
+                # pipeline form of the statement can be observed
+                out.label('closure-call-not-observed')
+                rr = np.asarray(pr.sys.domain.r)
+                gin = np.array(pr.GammaIn.data[:, i, j])
+                c = None
+            else:
+                rr, gin, c = captured[kk]
             ins = rr <= sigma
             npts = max(npts, int(np.count_nonzero(ins)))
             if not np.any(ins):
                 continue
             gmax = max(gmax, float(np.max(np.abs(gin[ins]))))
-            dev = np.abs(c[ins] + gin[ins] + 1.0)
-            lim = 4 * EPS * np.maximum(1.0, np.abs(gin[ins]))
-            if np.any(dev > lim) or not np.all(np.isfinite(c[ins])):
+            if c is None:
+                dev = lim = np.zeros(1)
+            else:
+                dev = np.abs(c[ins] + gin[ins] + 1.0)
+                lim = 4 * EPS * np.maximum(1.0, np.abs(gin[ins]))
+            if c is not None and (np.any(dev > lim) or not np.all(np.isfinite(c[ins]))):
                 m_ = int(np.argmax(dev - lim))
                 out.fail(sig + 'closure-output-not-minus-one-minus-gamma',
                          'pair %s (%s%s, %s): closure output at r=%.4g <= sigma=%.4g gives c+gamma = %r, not -1 (gamma=%r)' % (
